@@ -2,7 +2,7 @@
 """Validate the proved-safe region: (a) model: PRE=1 at a block => STEP=1 (what Lemmas/Refine.lean proves);
 (b) no trigger (other than D8, D9a, D9b) fired so far => PRE=1 (the envelope lies inside the region)."""
 import sys
-sys.path.insert(0,'/verif/tools')
+sys.path.insert(0, __import__('os').path.dirname(__import__('os').path.abspath(__file__)))
 import poalib
 model = poalib.parse_obs(sys.argv[1])
 a=b=n=npre=nfree=0
